@@ -262,7 +262,47 @@ def rule_d(ctx):
         ctx.ob("insertkey|carries-epoch-and-slot", ok, "insert returns InsertKey{slab index of the new node, epoch of the new entry}", rets)
 
 
+KR = "grpc::key_registry::KeyRegistry::"
+
+
+def rule_e(ctx):
+    """gRPC key registry (only compiled with the `grpc` feature: thorough tier)"""
+    P = ctx.prog
+    ib = P.body(KR + "insert_key")
+    if ib is None:
+        ctx.ob("key-registry|not-compiled", True, "grpc::key_registry is not part of this configuration (checked in the `full` configuration of the thorough tier)", [])
+        return
+    for nm, key_arg in (("insert_key", ("arg", 3)), ("insert_eternal_key", None)):
+        b = P.body(KR + nm)
+        if b is None:
+            ctx.missing(KR + nm)
+            continue
+        rets = K.ret_assigns(b)
+        ok = bool(rets) and all(r.is_term and r.callee == IPQ + "IndexedPriorityQueue::insert" and
+                                b.origins(r.args()[2], r) == frozenset([("arg", 2)]) for r in rets)
+        if key_arg:
+            ok = ok and all(b.origins(r.args()[1], r) == frozenset([key_arg]) for r in rets)
+        ctx.ob("key-registry|%s-returns-insert-key" % nm, ok, "%s registers the ActionKey and returns the queue's InsertKey unchanged" % nm, rets)
+    eb = P.body(KR + "extract_key")
+    if eb:
+        ex = list(eb.calls(IPQ.replace("::", "::") + "IndexedPriorityQueue::extract$"))
+        ok = len(ex) == 1 and eb.origins(ex[0].args()[1], ex[0]) == frozenset([("arg", 2)])
+        ctx.ob("key-registry|extract-by-given-id", ok, "extract_key removes exactly the entry designated by the given id", ex)
+    rb = P.body(KR + "remove_expired_keys")
+    if rb:
+        pulls = list(rb.calls(IPQ + "IndexedPriorityQueue::pull$"))
+        ok = len(pulls) == 1
+        if ok:
+            good = False
+            for c in rb.conditions(pulls[0]):
+                if K.cmp_implies(c, "<", lambda x: any(K.has_call(frozenset([o]), lambda cc: cc.endswith("peek_key")) for o in x), lambda y: y == frozenset([("arg", 2)])):
+                    good = True
+            ok = good
+        ctx.ob("key-registry|expire-only-strictly-older", ok, "only keys whose expiration strictly predates `now` are dropped", pulls)
+
+
 RULES = [
+    ("C20.e", "gRPC key registry hands queue keys through unchanged", rule_e),
     ("C20.a", "Item comparator: key, then epoch, reversed", rule_a),
     ("C20.b", "epochs unique and increasing; pull/peek return the heap top", rule_b),
     ("C20.c", "UniqueKey orders by (key, epoch)", rule_c),
